@@ -48,6 +48,12 @@ var vTags = []string{
 	`name:"a" name:"b"`, `group:"g,soft,soft"`,
 }
 
+// vFieldTypes: types of the tagged field (pointer, slices of pointer / value /
+// struct / interface elements, a plain value)
+var vFieldTypes = []reflect.Type{
+	vAType, reflect.SliceOf(vAType), reflect.TypeOf([]int{}), reflect.TypeOf([]vA{}), reflect.SliceOf(vI0Type), reflect.TypeOf(0),
+}
+
 type vBadInput struct {
 	api  int // 0 Provide, 1 Decorate, 2 Invoke
 	fn   interface{}
@@ -133,19 +139,13 @@ func (h *vHist) genInput(tag string) vBadInput {
 		in.opts = []ProvideOption{As(new(fmt.Stringer))}
 	case 26: // a tagged field in a parameter object
 		tg := vTags[verifNdInt(tag+".tag", len(vTags))]
-		ft := t
-		if verifNdBool(tag + ".slice") {
-			ft = sliceT
-		}
+		ft := vFieldTypes[verifNdInt(tag+".ft", len(vFieldTypes))]
 		st := reflect.StructOf([]reflect.StructField{{Name: "In", Type: vInType, Anonymous: true}, {Name: "X", Type: ft, Tag: reflect.StructTag(tg)}})
 		in.fn = vMkFn([]reflect.Type{st}, []reflect.Type{reflect.TypeOf(&vT0{})}, false)
 		in.desc += ":" + tg
 	case 27: // a tagged field in a result object
 		tg := vTags[verifNdInt(tag+".tag", len(vTags))]
-		ft := t
-		if verifNdBool(tag + ".slice") {
-			ft = sliceT
-		}
+		ft := vFieldTypes[verifNdInt(tag+".ft", len(vFieldTypes))]
 		st := reflect.StructOf([]reflect.StructField{{Name: "Out", Type: vOutType, Anonymous: true}, {Name: "X", Type: ft, Tag: reflect.StructTag(tg)}})
 		in.fn = vMkFn(nil, []reflect.Type{st}, false)
 		in.desc += ":" + tg
